@@ -438,6 +438,258 @@ func TestRandomLarger(t *testing.T) {
 	})
 }
 
+// ---------------------------------------------------------------- several calls in one run
+
+// ncall is a call whose arguments may be calls themselves.
+type ncall struct {
+	Fn   int // index into the function table of the case
+	Args []narg
+	pos  int // offset of the function name in the printed script
+}
+
+type narg struct {
+	Name string
+	Lit  int64
+	Call *ncall
+}
+
+// refEval computes, bottom-up, what every call site receives; want[pos] = rendered parameter values.
+func refEval(lists [][]pdef, c *ncall, want map[int][]string) int64 {
+	flat := make([]arg, len(c.Args))
+	for i, a := range c.Args {
+		v := a.Lit
+		if a.Call != nil {
+			v = refEval(lists, a.Call, want)
+		}
+		flat[i] = arg{a.Name, v}
+	}
+	vals, ok := refBind(lists[c.Fn], flat)
+	if !ok {
+		panic("harness: generated an unbindable call")
+	}
+	want[c.pos] = vals
+	// the function's result: 1 + the sum of the integer arguments it was given
+	sum := int64(1)
+	for _, a := range flat {
+		sum += a.Val
+	}
+	return sum
+}
+
+func printCall(b *strings.Builder, c *ncall) {
+	c.pos = b.Len()
+	fmt.Fprintf(b, "fn%d(", c.Fn)
+	for i, a := range c.Args {
+		if i > 0 {
+			b.WriteString(", ")
+		}
+		if a.Name != "" {
+			b.WriteString(a.Name + " = ")
+		}
+		if a.Call != nil {
+			printCall(b, a.Call)
+		} else {
+			fmt.Fprint(b, a.Lit)
+		}
+	}
+	b.WriteString(")")
+}
+
+func sumInts(v any) int64 {
+	switch x := v.(type) {
+	case int64:
+		return x
+	case []any:
+		var s int64
+		for _, e := range x {
+			s += sumInts(e)
+		}
+		return s
+	}
+	return 0
+}
+
+// TestCallSequences: several calls - nested in each other's arguments and one after the other - in ONE run. Each
+// call site must receive exactly its own arguments, also when looked at after all other calls have run (the
+// values are kept by reference and rendered at the end of the run).
+func TestCallSequences(t *testing.T) {
+	rk.Check(t, "sequences", 7, evid.Scale(4000, 40000), func(t *rapid.T) {
+		nf := rapid.IntRange(1, 3).Draw(t, "nfuncs")
+		lists := make([][]pdef, nf)
+		for f := range lists {
+			n := rapid.IntRange(0, 4).Draw(t, "nparams")
+			l := make([]pdef, n)
+			seenOpt := false
+			for i := range l {
+				k := pkind(rapid.IntRange(0, 2).Draw(t, "kind"))
+				if k == vari && i < n-1 {
+					k = req
+				}
+				if k == vari && seenOpt {
+					k = opt // a variadic tail after optional parameters is not a valid list
+				}
+				if seenOpt && k == req {
+					k = opt
+				}
+				if k == opt {
+					seenOpt = true
+				}
+				l[i] = pdef{k, []string{"a", "b", "c", "d"}[i]}
+			}
+			if !refValid(l) {
+				l = []pdef{{req, "a"}, {vari, "b"}}
+			}
+			lists[f] = l
+		}
+		nid := int64(10)
+		nested, variadicNested := false, false
+		var genCall func(depth int) *ncall
+		genCall = func(depth int) *ncall {
+			f := rapid.IntRange(0, nf-1).Draw(t, "fn")
+			l := lists[f]
+			c := &ncall{Fn: f}
+			hasVar := len(l) > 0 && l[len(l)-1].K == vari
+			nreq, nfix := 0, len(l)
+			for _, p := range l {
+				if p.K == req {
+					nreq++
+				}
+			}
+			if hasVar {
+				nfix--
+			}
+			val := func() narg {
+				nid++
+				if depth > 0 && rapid.IntRange(0, 2).Draw(t, "nest") == 0 {
+					nested = true
+					return narg{Call: genCall(depth - 1)}
+				}
+				return narg{Lit: nid}
+			}
+			if hasVar {
+				npos := rapid.IntRange(nreq, nfix+4).Draw(t, "npos")
+				for i := 0; i < npos; i++ {
+					a := val()
+					if a.Call != nil && i > 0 && len(lists[a.Call.Fn]) > 0 && lists[a.Call.Fn][len(lists[a.Call.Fn])-1].K == vari {
+						variadicNested = true
+					}
+					c.Args = append(c.Args, a)
+				}
+				return c
+			}
+			npos := rapid.IntRange(0, nfix).Draw(t, "npos")
+			for i := 0; i < npos; i++ {
+				c.Args = append(c.Args, val())
+			}
+			// the remaining required parameters by name (in a drawn order), optional ones by name sometimes
+			var rest []int
+			for i := npos; i < nfix; i++ {
+				if l[i].K == req || rapid.Bool().Draw(t, "giveopt") {
+					rest = append(rest, i)
+				}
+			}
+			if len(rest) > 1 && rapid.Bool().Draw(t, "reverse") {
+				for i, j := 0, len(rest)-1; i < j; i, j = i+1, j-1 {
+					rest[i], rest[j] = rest[j], rest[i]
+				}
+			}
+			for _, i := range rest {
+				a := val()
+				a.Name = l[i].Name
+				c.Args = append(c.Args, a)
+			}
+			return c
+		}
+		nst := rapid.IntRange(2, 5).Draw(t, "nstmts")
+		var calls []*ncall
+		var b strings.Builder
+		for i := 0; i < nst; i++ {
+			c := genCall(2)
+			calls = append(calls, c)
+			fmt.Fprintf(&b, "x%d = ", i)
+			printCall(&b, c)
+			b.WriteString("\n")
+		}
+		src := b.String()
+		want := map[int][]string{}
+		for _, c := range calls {
+			refEval(lists, c, want)
+		}
+		// the implementation side
+		kept := map[int][]any{}
+		immediate := map[int][]string{}
+		fns := map[string]*runtimev2.Fn{}
+		var sigs []string
+		for f, l := range lists {
+			params := mkParams(l)
+			sigs = append(sigs, fmt.Sprintf("fn%d%s", f, strings.TrimPrefix(sigText(l), "f")))
+			fns[fmt.Sprintf("fn%d", f)] = &runtimev2.Fn{
+				CallCheck: func(ctx *runtimev2.Task, e *ast.CallExpr) *errchain.PlError {
+					return runtimev2.CheckPassParam(ctx, e, params)
+				},
+				Call: func(ctx *runtimev2.Task, e *ast.CallExpr) *errchain.PlError {
+					at := int(e.NamePos.Pos)
+					sum := int64(1)
+					kept[at], immediate[at] = []any{}, []string{}
+					for i := range params {
+						v, err := runtimev2.GetParam(ctx, e, params, i)
+						if err != nil {
+							return err
+						}
+						if lst, ok := v.([]any); (ok && lst == nil) || (v == nil && params[i].Variable) {
+							v = []any{}
+						}
+						kept[at] = append(kept[at], v)
+						immediate[at] = append(immediate[at], probe.Render(v))
+						sum += sumInts(v)
+					}
+					ctx.Regs.ReturnAppend(runtimev2.V{V: sum, T: ast.Int})
+					return nil
+				},
+				Desc: runtimev2.FnDesc{Name: fmt.Sprintf("fn%d", f), Params: params},
+			}
+		}
+		rp := replay{Sig: strings.Join(sigs, "; "), Src: src}
+		sc, lerr, crash := impl.LoadV2("c19.p", src, fns)
+		if crash != nil {
+			rk.Fail(t, "sequences", rp, "loading panicked: %s\nscript:\n%s", crash.Value, src)
+		}
+		if lerr != nil {
+			rk.Fail(t, "sequences", rp, "a script of bindable calls was rejected at load: %v\nfunctions: %s\nscript:\n%s", lerr, rp.Sig, src)
+		}
+		rerr, crash := impl.RunV2(sc, nil)
+		if crash != nil || rerr != nil {
+			rk.Fail(t, "sequences", rp, "running a script of bindable calls failed: %v %v\nfunctions: %s\nscript:\n%s", rerr, crash, rp.Sig, src)
+		}
+		for at, w := range want {
+			if got := strings.Join(immediate[at], " | "); got != strings.Join(w, " | ") {
+				rk.Fail(t, "sequences", rp, "the call at offset %d received [%s], want [%s]\nfunctions: %s\nscript:\n%s", at, got, strings.Join(w, " | "), rp.Sig, src)
+			}
+			var late []string
+			for _, v := range kept[at] {
+				late = append(late, probe.Render(v))
+			}
+			if got := strings.Join(late, " | "); got != strings.Join(w, " | ") {
+				rk.Fail(t, "sequences", rp, "the values the call at offset %d received read [%s] at the end of the run, it was given [%s]\nfunctions: %s\nscript:\n%s", at, got, strings.Join(w, " | "), rp.Sig, src)
+			}
+		}
+		if len(immediate) != len(want) {
+			rk.Fail(t, "sequences", rp, "%d call sites executed, the script has %d\nscript:\n%s", len(immediate), len(want), src)
+		}
+		labels := []string{"sequence"}
+		if nested {
+			labels = append(labels, "sequence/nested-call-argument")
+		}
+		if variadicNested {
+			labels = append(labels, "sequence/variadic-call-inside-variadic-tail")
+		}
+		evid.Case(rp.Sig+"|"+src, nested, labels...)
+		if variadicNested && len(src)%7 == 0 {
+			evid.Sample(map[string]any{"functions": rp.Sig, "script": src})
+		}
+	})
+}
+
 // TestTypedGetters: each typed getter with well- and ill-typed arguments.
 func TestTypedGetters(t *testing.T) {
 	params := []*runtimev2.Param{{Name: "v"}}
